@@ -63,6 +63,7 @@ type AsrtSpec struct {
 	Attrs             []AttrSpec `json:"attrs,omitempty"`
 	SessionIndex      string     `json:"session_index,omitempty"`
 	SessionNOA        *int64     `json:"session_noa_ms,omitempty"` // AuthnStatement SessionNotOnOrAfter (nil: absent)
+	AuthnMs           *int64     `json:"authn_ms,omitempty"`       // AuthnStatement AuthnInstant relative to t0 (nil: t0): the IdP answers from a session it opened earlier
 	NoAuthn           bool       `json:"no_authn,omitempty"`
 	Sign              bool       `json:"sign"`
 	SignKey           int        `json:"sign_key,omitempty"` // index into rsaKeys
@@ -177,6 +178,7 @@ func applyNSDecls(root *etree.Element, decls []NSDecl, t0 time.Time) {
 
 func i64(v int64) *int64  { return &v }
 func sp(s string) *string { return &s }
+func bp(b bool) *bool     { return &b }
 
 func signingCtx(kp KeyPair, method string) *dsig.SigningContext {
 	ks := dsig.TLSCertKeyStore(tls.Certificate{Certificate: [][]byte{kp.Cert.Raw}, PrivateKey: kp.Key, Leaf: kp.Cert})
@@ -330,6 +332,9 @@ func (a *AsrtSpec) toAssertion(t0 time.Time) *saml.Assertion {
 		if a.SessionNOA != nil {
 			t := t0.Add(ms(*a.SessionNOA)).UTC()
 			as.AuthnStatements[0].SessionNotOnOrAfter = &t
+		}
+		if a.AuthnMs != nil {
+			as.AuthnStatements[0].AuthnInstant = t0.Add(ms(*a.AuthnMs)).UTC()
 		}
 	}
 	if len(a.Attrs) > 0 {
